@@ -72,6 +72,11 @@ CHECKS = {
             "Every generated program is compiled with -fsanitize=address,undefined and run for 3 or 6 loop() passes; any sanitizer report is a violation, and the allocator's live byte count after consecutive passes (ASan allocator interface, sampled by the mock main) must be equal whenever the reference run's live data is equal.",
             "Host ASan heap and the mock String stand in for the AVR heap; aliasing, parameter mutation and in-loop allocation are recorded findings excluded by construction.",
             "DESIGN.md 3/C09"),
+    "C10": ("exploration",
+            "generated 'promotion' scripts transpiled in fresh interpreters under 12 PYTHONHASHSEED values (digest agreement) and in generated in-process histories (agreement with the fresh-process bytes, parse-twice IR equality, deep snapshot of module-level state)",
+            "The harness owns the hash seed: each pool of generated scripts (names hoisted out of if/elif/else/while/for/try in random order, several buttons, animated LCDs, ultrasonic sensors, helpers with several signatures) is transpiled by fresh interpreters under 12 hash seeds and inside generated histories of 2-12 transpilations; all outputs for a script must be byte-identical and module-level containers unchanged.",
+            "Other CPython versions/platforms are represented only by hash-seed variation.",
+            "DESIGN.md 3/C10"),
 }
 
 PENDING = {}
